@@ -14,7 +14,7 @@ args = [a for a in sys.argv[1:] if not a.startswith('--')]
 quick_only = '--quick-only' in sys.argv
 in_repo = '--in-repo' in sys.argv
 results = {}
-respath = os.path.join(HERE, 'seeded', 'RESULTS.json')
+respath = os.environ.get('SEEDED_RESULTS') or os.path.join(HERE, 'seeded', 'RESULTS.json')   # parallel runs: one file each, merged afterwards
 if os.path.exists(respath):
     results = json.load(open(respath))
 
